@@ -1,11 +1,12 @@
 import Blue.Proofs.TupleKey1Parse
+import Blue.Proofs.TupleKey1Scan
 import Blue.Proofs.TupleKey2T
 import Blue.Proofs.TupleEmbed1
 import Blue.Proofs.ConstsTieC16
 /-! # Property C16 — tuple-key encodings sort byte-wise exactly as their tuples, and decode back
 
 Property theorems only (helper lemmas live in `Blue/Proofs/{TupleKey1,TupleKey2,Digits,TupleString,
-TupleDecode,TupleStringDecode,TupleKey1T,TupleKey1Parse,TupleKey2T,TupleEmbed,TupleEmbed1}.lean`).
+TupleDecode,TupleStringDecode,TupleKey1T,TupleKey1Parse,TupleKey1Scan,TupleKey2T,TupleEmbed,TupleEmbed1}.lean`).
 
 Two models, both tied to the crates byte for byte by the correspondence check:
 * `Blue.TupleKey1` — the field-numbered format (`tuple_key`): tag = rotated varint of
@@ -31,10 +32,33 @@ pairs go wrong: `string_desc_order_exact` / `string_desc_correct_iff` (a descend
 correctly iff it is outside `ContTie`), from `string_desc_partial` (all pairs outside `ContTie` are
 right) and `string_desc_tie_ascending` (all pairs inside `ContTie` are wrong).
 
-Not theorems here (see `partial` in bin/props.py): "decoding arbitrary bytes returns an error
-rather than panicking" — the model decoders are total functions, so the clause has no content on
-the model; it is observed on the implementation (hostile-buffer streams, a panic is an oracle
-failure). -/
+The schema-free walk of the field-numbered format (`scan`: `TupleKeyParser::peek_next` +
+`parse_next` / `parse_next_with_key`, the loop of `Schema::schema_for_key_recurse`, run by the driver
+with fuel `buf.length + 1`) has its own theorems: `unfield_number_inverts_field_number`,
+`scan_roundtrip` (the walk over the key of `t` returns `t` — field numbers, directions, values, every
+element type in both directions, descending strings included — and no error), `scan_fuel_stable` (any
+fuel above the buffer length gives the same answer, so the theorems are about the function that is
+run), `scan_append` / `scan_append_tuples` / `scan_prefix_determined` (keys are concatenations of
+self-delimiting elements: the walk over `encTuple t ++ rest`, `rest` ANY bytes, is `t` followed by
+the walk over `rest`).
+
+"Decoding arbitrary bytes returns an error rather than panicking": the model decoders are total
+functions, so "does not panic" has no content on the model and is observed on the implementation
+(hostile-buffer streams, a panic is an oracle failure).  What the clause CAN say on a total model is
+proved for the walk: `scan_total_no_overrun` (on ANY byte string the walk reads a prefix of the input
+only — `Consumed`: the canonical tags and the iterator-cut raw slices of exactly the triples it
+returns, each slice parsing to the value returned; no error only if the whole input was consumed; an
+error only with bytes left, and it is the error of the first element of the remainder),
+`scan_values_ok` (what it returns from any bytes is a tuple `extend_with_key` accepts),
+`scan_normalises` and `scan_reencode_iff` (re-encoding the result gives the input back iff the input
+is a key a writer can produce; raw value slices are NOT canonical for any element type — unit pad
+byte, low bits of the last byte of the integers, pad bits of the last string chunk are ignored by
+`parse_from` — only the tags are: `scan_noncanonical_*` examples), and for the typed parser of the
+field-numbered format: `typed_total_no_overrun`, `typed_values_ok` (`parseRow` with ANY expected
+element sequence on ANY bytes reads a prefix only, ends `ok` only behind the last expected element,
+and an error is the error of `parse_next_with_key` for the first expected element that does not
+parse).  The same statement for the compact format's parsers is not a theorem here (see `partial`
+in bin/props.py). -/
 namespace Blue.Props.C16
 open Blue.TupleKey2 (blt Strong slt)
 
@@ -286,6 +310,122 @@ theorem tuple_roundtrip (t : List (Nat × Dir × Val)) (h : ∀ e ∈ t, ElemOk 
     parseRow (schemaOf t) (encTuple t ++ rest) = (t.map (fun e => e.2.2), .ok rest) :=
   parseRow_encTuple t h rest
 
+
+/-! ### the schema-free walk (`peek_next` + `parse_next` / `parse_next_with_key`) -/
+
+/-- `TupleKey::unfield_number` inverts `TupleKey::field_number` on every field number
+    `FieldNumber::new` accepts, for every element type and direction -/
+theorem unfield_number_inverts_field_number {f : Nat} (hf : validField f = true) (ty : Ty) (d : Dir) :
+    unfieldNumber (tag f ty d) = some (f, ty, d) := unfieldNumber_tag hf ty d
+
+/-- the walk gives the same answer for every fuel above the buffer length (ANY buffer); the driver
+    runs it with `buf.length + 1` -/
+theorem scan_fuel_stable (fuel fuel' : Nat) (buf : List Nat) (h : buf.length < fuel) (h' : buf.length < fuel') :
+    scan fuel buf = scan fuel' buf := Blue.TupleKey1.scan_fuel_stable fuel fuel' buf h h'
+
+/-- **round trip of the schema-free walk**, as the driver runs it: the walk over the key of `t`
+    returns exactly the (field number, direction, value) list of `t` and no error — every element
+    type, both directions, descending strings (D-20 is about order, not decoding) included -/
+theorem scan_roundtrip (t : List (Nat × Dir × Val)) (h : ∀ e ∈ t, ElemOk e) :
+    scan ((encTuple t).length + 1) (encTuple t) = (t, none) := Blue.TupleKey1.scan_roundtrip t h
+
+/-- the same for every fuel that is at least the number of elements -/
+theorem scan_roundtrip_fuel (t : List (Nat × Dir × Val)) (h : ∀ e ∈ t, ElemOk e) (fuel : Nat) (hf : t.length ≤ fuel) :
+    scan fuel (encTuple t) = (t, none) := scan_encTuple t h fuel hf
+
+/-- **keys are concatenations of self-delimiting elements**: the walk over the key of `t` followed
+    by ANY bytes is `t`, then the walk over those bytes (element boundaries are found from the
+    continuation bits alone) -/
+theorem scan_append (t : List (Nat × Dir × Val)) (h : ∀ e ∈ t, ElemOk e) (rest : List Nat) :
+    scan ((encTuple t ++ rest).length + 1) (encTuple t ++ rest)
+      = (t ++ (scan (rest.length + 1) rest).1, (scan (rest.length + 1) rest).2) :=
+  Blue.TupleKey1.scan_append t h rest
+
+/-- two keys, concatenated, walk to the two walks, concatenated -/
+theorem scan_append_tuples (t u : List (Nat × Dir × Val)) (ht : ∀ e ∈ t, ElemOk e) (hu : ∀ e ∈ u, ElemOk e) :
+    scan ((encTuple t ++ encTuple u).length + 1) (encTuple t ++ encTuple u)
+      = ((scan ((encTuple t).length + 1) (encTuple t)).1 ++ (scan ((encTuple u).length + 1) (encTuple u)).1, none) :=
+  Blue.TupleKey1.scan_append_tuples t u ht hu
+
+/-- the first `t.length` results of a walk are determined by the key prefix `encTuple t` alone -/
+theorem scan_prefix_determined (t : List (Nat × Dir × Val)) (h : ∀ e ∈ t, ElemOk e) (rest : List Nat) :
+    (scan ((encTuple t ++ rest).length + 1) (encTuple t ++ rest)).1.take t.length = t :=
+  Blue.TupleKey1.scan_prefix_determined t h rest
+
+/-- **arbitrary bytes, no overrun** (the content "returns an error rather than panicking" has on a
+    total model): on ANY byte string the walk, as the driver runs it, reads a prefix `pre` of the
+    input only — `Consumed`: element by element the tag `field_number` makes for the returned triple,
+    cut by `TupleKeyIterator::next`, then a non-empty raw slice cut by the iterator which `parse_from`
+    (after `reverse_encoding` if descending) turns into the returned value, at least two bytes per
+    returned triple; it reports no error only if it consumed the whole input, and an error `e` only
+    if bytes remain and `e` is what one more peek + parse at the remainder fails with -/
+theorem scan_total_no_overrun (buf : List Nat) :
+    ∃ pre rest, buf = pre ++ rest ∧ Consumed buf (scan (buf.length + 1) buf).1 rest
+      ∧ 2 * (scan (buf.length + 1) buf).1.length ≤ pre.length
+      ∧ ((scan (buf.length + 1) buf).2 = none → rest = [])
+      ∧ (∀ e, (scan (buf.length + 1) buf).2 = some e → rest ≠ [] ∧ scan 1 rest = ([], some e)) :=
+  Blue.TupleKey1.scan_total_no_overrun buf
+
+/-- the same for any fuel: the outcome is the outcome of the walk, with the fuel that is left, at
+    what remains behind the consumed prefix, where nothing more is recognised -/
+theorem scan_consumed (fuel : Nat) (buf : List Nat) :
+    ∃ rest, Consumed buf (scan fuel buf).1 rest
+      ∧ scan (fuel - (scan fuel buf).1.length) rest = ([], (scan fuel buf).2) :=
+  Blue.TupleKey1.scan_consumed fuel buf
+
+/-- `Consumed` is a prefix of the buffer -/
+theorem consumed_prefix {buf : List Nat} {vs : List (Nat × Dir × Val)} {rest : List Nat} (h : Consumed buf vs rest) :
+    ∃ pre, buf = pre ++ rest ∧ 2 * vs.length ≤ pre.length := h.prefix
+
+/-- whatever the walk returns from ANY buffer of bytes is a tuple `extend_with_key` accepts -/
+theorem scan_values_ok (fuel : Nat) (buf : List Nat) (hb : Bytes buf) : ∀ e ∈ (scan fuel buf).1, ElemOk e :=
+  Blue.TupleKey1.scan_values_ok fuel buf hb
+
+/-- the walk normalises: the key written from what it returned (from ANY bytes) walks back to
+    exactly that -/
+theorem scan_normalises (fuel : Nat) (buf : List Nat) (hb : Bytes buf) :
+    scan ((encTuple (scan fuel buf).1).length + 1) (encTuple (scan fuel buf).1) = ((scan fuel buf).1, none) :=
+  Blue.TupleKey1.scan_normalises fuel buf hb
+
+/-- **the canonical class, exactly**: re-encoding what the walk returned gives the input back iff
+    the input is a key a writer can produce.  Outside it the walk may still succeed (raw value slices
+    are not canonical: `scan_noncanonical_*` below); it then returns a tuple whose key is different -/
+theorem scan_reencode_iff (buf : List Nat) (hb : Bytes buf) :
+    encTuple (scan (buf.length + 1) buf).1 = buf ↔ ∃ t, (∀ e ∈ t, ElemOk e) ∧ buf = encTuple t :=
+  Blue.TupleKey1.scan_reencode_iff buf hb
+
+/-- non-canonical raw slices, one per element kind: the walk succeeds and the value re-encodes to
+    other bytes (unit: any single pad byte; 32-bit: the low four bits of the fifth byte; 64-bit: the
+    low seven bits of the tenth byte; strings: the pad bits of the last chunk) -/
+theorem scan_noncanonical_unit :
+    scan 3 [34, 2] = ([(1, .fwd, .unit)], none) ∧ encTuple [(1, .fwd, .unit)] = [34, 0] := by decide
+theorem scan_noncanonical_u32 :
+    scan 7 [36, 1, 1, 1, 1, 14] = ([(1, .fwd, .u32 0)], none) ∧ encTuple [(1, .fwd, .u32 0)] = [36, 1, 1, 1, 1, 0] := by
+  decide
+theorem scan_noncanonical_u64 :
+    scan 12 [38, 1, 1, 1, 1, 1, 1, 1, 1, 1, 126] = ([(1, .fwd, .u64 0)], none)
+    ∧ encTuple [(1, .fwd, .u64 0)] = [38, 1, 1, 1, 1, 1, 1, 1, 1, 1, 0] := by decide
+theorem scan_noncanonical_str :
+    scan 4 [44, 97, 130] = ([(1, .fwd, .str [0x61])], none) ∧ encTuple [(1, .fwd, .str [0x61])] = [44, 97, 128] := by
+  decide
+
+/-- **the typed parser on arbitrary bytes** (`parse_next_with_key` per expected element, ANY
+    expected sequence of valid field numbers, ANY bytes): it reads a prefix of the input only
+    (`Consumed`, for exactly the values it returns, which have the expected types); it ends `ok` only
+    behind the last expected element, handing over exactly what remains; it ends with an error only
+    at an expected element and the error is what `parse_next_with_key` says for it at what remains -/
+theorem typed_total_no_overrun (sch : List (Nat × Ty × Dir)) (buf : List Nat) (hs : ∀ s ∈ sch, validField s.1 = true) :
+    ∃ rest, Consumed buf (rowTriples sch (parseRow sch buf).1) rest
+      ∧ (parseRow sch buf).1.map Val.ty = (sch.take (parseRow sch buf).1.length).map (·.2.1)
+      ∧ (∀ rem, (parseRow sch buf).2 = .ok rem → rem = rest ∧ (parseRow sch buf).1.length = sch.length)
+      ∧ (∀ e, (parseRow sch buf).2 = .error e →
+          ∃ f ty d, sch[(parseRow sch buf).1.length]? = some (f, ty, d) ∧ parseWithKey rest f ty d = .error e) :=
+  parseRow_total_no_overrun sch buf hs
+
+/-- what the typed parser returns from ANY buffer of bytes are values `extend_with_key` accepts -/
+theorem typed_values_ok (sch : List (Nat × Ty × Dir)) (buf : List Nat) (hs : ∀ s ∈ sch, validField s.1 = true)
+    (hb : Bytes buf) : ∀ e ∈ rowTriples sch (parseRow sch buf).1, ElemOk e := parseRow_values_ok sch buf hs hb
+
 end FieldNumbered
 
 /-! ## compact format -/
@@ -459,6 +599,45 @@ example : blt [0, 255, 0, 0, 0x17, 0x7f] [0, 255, 0, 0, 0x17, 0x80] = true := by
 -- the builder model refuses a value that is not of the method's argument type
 example : Blue.TupleKey2.encRow [(.u8, .int 3)] = none := by decide
 
+
+-- the schema-free walk on a concrete mixed tuple: every element type, both directions, the largest
+-- field number, a descending non-ASCII string — evaluated
+example : scan 52 (encTuple [(1, .fwd, .str [0x61]), (8, .rev, .i64 (-2)), (19, .fwd, .unit),
+      (536870911, .rev, .str [0xc3, 0xbf]), (3, .rev, .u32 7), (2, .rev, .unit), (5, .fwd, .u64 9), (6, .rev, .i32 (-1))])
+    = ([(1, .fwd, .str [0x61]), (8, .rev, .i64 (-2)), (19, .fwd, .unit),
+      (536870911, .rev, .str [0xc3, 0xbf]), (3, .rev, .u32 7), (2, .rev, .unit), (5, .fwd, .u64 9), (6, .rev, .i32 (-1))], none) := by
+  decide
+example : (encTuple [(1, .fwd, .str [0x61]), (8, .rev, .i64 (-2)), (19, .fwd, .unit),
+      (536870911, .rev, .str [0xc3, 0xbf]), (3, .rev, .u32 7), (2, .rev, .unit), (5, .fwd, .u64 9), (6, .rev, .i32 (-1))]).length + 1 = 52 := by
+  decide
+-- the hypothesis of `scan_roundtrip` / `scan_append` on a two-element tuple with a descending string
+example : ∀ e ∈ [((1 : Nat), Dir.fwd, Val.unit), (536870911, .rev, .str [0xc3, 0xbf])], ElemOk e := by
+  intro e he
+  simp only [List.mem_cons, List.not_mem_nil, or_false] at he
+  rcases he with rfl | rfl
+  · exact ⟨by decide, trivial, fun s hs => by cases hs⟩
+  · refine ⟨by decide, ?_, ?_⟩
+    · intro b hb; simp only [List.mem_cons, List.not_mem_nil, or_false] at hb; omega
+    · intro s hs; cases hs; decide
+-- hostile buffers: one good element, then (a) a well-formed tag that is not the canonical one,
+-- (b) a byte run that is no tag, (c) a tag with nothing behind it, (d) a string that is not UTF-8:
+-- the element in front is returned, the error is that of the first element of the remainder
+example : scan 8 ([44, 97, 128] ++ [0x25, 1, 1, 0]) = ([(1, .fwd, .str [0x61])], some .tagMismatch)
+    ∧ scan 1 [0x25, 1, 1, 0] = ([], some .tagMismatch) := by decide
+example : scan 6 ([44, 97, 128] ++ [0xff, 0xff]) = ([(1, .fwd, .str [0x61])], some .badTag) := by decide
+example : scan 5 ([44, 97, 128] ++ [36]) = ([(1, .fwd, .str [0x61])], some .missingValue) := by decide
+example : scan 7 ([44, 97, 128] ++ [44, 0xff, 0xfe]) = ([(1, .fwd, .str [0x61])], some .utf8) := by decide
+-- `Consumed` on a concrete buffer with a non-canonical slice and a remainder
+example : Consumed [36, 1, 1, 1, 1, 14, 0xff] [(1, .fwd, .u32 0)] [0xff] :=
+  ⟨[1, 1, 1, 1, 14], [0xff], by decide, by decide, by decide, by decide, by decide, rfl, rfl⟩
+example : Bytes [36, 1, 1, 1, 1, 14, 0xff] := by
+  intro b hb; simp only [List.mem_cons, List.not_mem_nil, or_false] at hb; omega
+
+-- the typed parser on a hostile buffer: the first expected element parses (from a non-canonical
+-- slice), the second is a string that is not UTF-8
+example : (parseRow [(1, .u32, .fwd), (1, .str, .fwd)] [36, 1, 1, 1, 1, 14, 44, 0xff, 0xfe]).1 = [.u32 0] := by decide
+example : ∀ s ∈ [((1 : Nat), Ty.u32, Dir.fwd), (1, .str, .fwd)], validField s.1 = true := by decide
+
 end NonVacuity
 
 end Blue.Props.C16
@@ -510,6 +689,25 @@ end Blue.Props.C16
 #print axioms Blue.Props.C16.tuple_extension_before
 #print axioms Blue.Props.C16.element_decoders
 #print axioms Blue.Props.C16.tuple_roundtrip
+#print axioms Blue.Props.C16.unfield_number_inverts_field_number
+#print axioms Blue.Props.C16.scan_fuel_stable
+#print axioms Blue.Props.C16.scan_roundtrip
+#print axioms Blue.Props.C16.scan_roundtrip_fuel
+#print axioms Blue.Props.C16.scan_append
+#print axioms Blue.Props.C16.scan_append_tuples
+#print axioms Blue.Props.C16.scan_prefix_determined
+#print axioms Blue.Props.C16.scan_total_no_overrun
+#print axioms Blue.Props.C16.scan_consumed
+#print axioms Blue.Props.C16.consumed_prefix
+#print axioms Blue.Props.C16.scan_values_ok
+#print axioms Blue.Props.C16.scan_normalises
+#print axioms Blue.Props.C16.scan_reencode_iff
+#print axioms Blue.Props.C16.scan_noncanonical_unit
+#print axioms Blue.Props.C16.scan_noncanonical_u32
+#print axioms Blue.Props.C16.scan_noncanonical_u64
+#print axioms Blue.Props.C16.scan_noncanonical_str
+#print axioms Blue.Props.C16.typed_total_no_overrun
+#print axioms Blue.Props.C16.typed_values_ok
 #print axioms Blue.Props.C16.compact_u64
 #print axioms Blue.Props.C16.compact_i64
 #print axioms Blue.Props.C16.compact_bytes
